@@ -396,10 +396,25 @@ class SliceModel:
         os_ = trace_local(v, 0, (), through_calls=set())
         return bool(os_) and all(o.kind == 'callres' and o.data.bb == cn[0].bb for o in os_)
 
+    def advance_blocks(self, g):
+        """blocks of g whose terminator may move the scanner: a call handed `&mut` scanner, or `next` on the tokenizer's
+        own char iterator (not on a clone of it)"""
+        clone_next = {c.bb for c in self._clone_next_calls(g)}
+        out = set()
+        for c in g.live_calls:
+            at = c.term.get('arg_tys') or []
+            if at and at[0].startswith('&mut ') and self.roles.is_scanner_ty(at[0]):
+                out.add(c.bb)
+            elif (c.rdef or '').endswith('as std::iter::Iterator>::next') and 'CharIndices' in (c.rdef or '') and c.bb not in clone_next:
+                out.add(c.bb)
+        return out
+
     def _is_position(self, g):
         """returns the index of the next unread character: item.0 of a look at a clone of the iterator, else input.len()"""
         if g.locals[0]['ty'] != 'usize':
             return False
+        if g.arg_count >= 1 and g.locals[1]['ty'].startswith('&mut ') and self.advance_blocks(g):
+            return False       # a scanning helper: what it returns is the position only if nothing moves afterwards (r_token._returns_position)
         v = self.prog.view(g, keep=lambda x: True, tag='comb')
         cn = {c.bb for c in self._clone_next_calls(v)}
         os_ = trace_local(v, 0, (), through_calls=set())
